@@ -2,11 +2,11 @@ module verif/harness
 
 go 1.22
 
-require github.com/jimsnab/go-redisemu v0.0.0
-
 require (
-	github.com/google/uuid v1.6.0 // indirect
-	github.com/jimsnab/go-lane v1.30.0 // indirect
+	github.com/jimsnab/go-lane v1.30.0
+	github.com/jimsnab/go-redisemu v0.0.0
 )
+
+require github.com/google/uuid v1.6.0 // indirect
 
 replace github.com/jimsnab/go-redisemu => /repo
